@@ -26,6 +26,7 @@ func genC06(seed uint64, run int, tier string) Scenario {
 	}
 	sc.Ops = append(sc.Ops, OpSpec{Kind: "close"})
 	sc.F.DropAfterEOF = r.IntN(2) == 0
+	sc.F.QuietAfterWriteErr = r.IntN(2) == 0
 	sc.Class += "/base"
 
 	return sc
